@@ -104,6 +104,9 @@ class Report:
         self.assumptions = []
         self.notes = {}
         self.distinct = set()
+        self.categories = {}
+        import shutil
+        shutil.rmtree(os.path.join(REPLAY_DIR, prop), ignore_errors=True)
 
     # --- model-side bookkeeping
     def add_tlc(self, res, name=None):
@@ -131,7 +134,9 @@ class Report:
         self.distinct.add(key if isinstance(key, str) else digest(key))
 
     # --- verdicts
-    def violation(self, case, detail):
+    def violation(self, case, detail, category=None):
+        if category is not None:
+            self.categories[category] = self.categories.get(category, 0) + 1
         os.makedirs(os.path.join(REPLAY_DIR, self.prop), exist_ok=True)
         rec = {'property': self.prop, 'case': case, 'detail': detail, 'seed': self.seed, 'tier': self.tier}
         path = os.path.join(REPLAY_DIR, self.prop, digest(rec) + '.json')
@@ -162,6 +167,8 @@ class Report:
         for fid, h in sorted(self.known_hits.items()):
             print('KNOWN-FINDING: property=%s %s: %s (%d cases)' % (
                 self.prop, fid, self.findings.known[fid].get('what', h['what']), h['count']))
+        for c, k in sorted(self.categories.items(), key=lambda x: -x[1])[:40]:
+            print('  violations in category %s: %d' % (c, k))
         cov = self.cov
         if extra_cov:
             cov.update(extra_cov)
